@@ -140,3 +140,102 @@ def replay_h_dtypes_nullable(r0, r1, k0, k1, s0, s1, o0, o1, so, pandas_nulls):
         return False, "prediction holds"
     finally:
         shutil.rmtree(d, ignore_errors=True)
+
+
+# ------------------------------------------------------------------ allocation request == prediction ---
+REC = [None]
+
+
+class _DFMod:
+    @staticmethod
+    def empty(types, size, cats=None, cols=None, index_types=None, index_names=None, timezones=None,
+              columns_dtype=None):
+        REC[0] = dict(types=list(types), size=size, cats=dict(cats or {}), cols=list(cols),
+                      index_types=list(index_types or []), index_names=list(index_names or []))
+        return object(), {}
+
+    tz_to_dt_tz = staticmethod(lambda z: z)
+
+
+def h_prealloc(sel_f: bool, sel_a: bool, swap: bool, idx: int, size: int, k0: int, part: bool) -> bool:
+    """
+    pre: 0 <= idx <= 2 and 0 <= size <= 1000 and 0 <= k0 <= 5 and (sel_f or sel_a or idx > 0 or part)
+    post: __return__
+    """
+    # any selection / order of the columns f (float) and a (integer, k0 NULLs), any of them as index, with or without a
+    # partition column: what is handed to the allocator is, column by column, the predicted dtype - in the requested
+    # order, index columns separately, partition columns last as categories
+    pf = _handle([_rg(5, 2, k0, 2, 0)], True)
+    if part:
+        pf.cats = {"p": [1, 2]}
+    pred = dict(pf._dtypes())
+    cols = [c for c, s in (("f", sel_f), ("a", sel_a)) if s]
+    if swap:
+        cols = cols[::-1]
+    index = [None, "f", "a"][idx]
+    want_cols = cols + ([index] if index and index not in cols else []) + (["p"] if part else [])
+    saved = api.dataframe
+    api.dataframe = _DFMod
+    try:
+        pf.pre_allocate(size, list(want_cols), None, index)
+    finally:
+        api.dataframe = saved
+    r = REC[0]
+    data_cols = [c for c in want_cols if c != index and c != "p"]
+    # (a partition column named in the selection is passed twice; the allocator keeps one entry per name)
+    seen, cols, types = set(), [], []
+    for c, t in zip(r["cols"], r["types"]):
+        if c not in seen:
+            seen.add(c)
+            cols.append(c)
+            types.append(t)
+    if len(r["cols"]) != len(r["types"]) or cols != data_cols + (["p"] if part else []) or r["size"] != size:
+        return False
+    for c, t in zip(cols, types):
+        if str(t) != str("category" if c == "p" else pred[c]):
+            return False
+    if r["index_names"] != ([index] if index else []):
+        return False
+    if index:
+        # an integer index that may hold NULLs is allocated as int64 (documented special case), otherwise as predicted
+        it = str(r["index_types"][0])
+        if it != str(pred[index]) and not (index == "a" and it == "int64"):
+            return False
+    return set(r["cats"]) == ({"p"} if part else set())
+
+
+def replay_h_prealloc(sel_f, sel_a, swap, idx, size, k0, part):
+    """a real file (columns f, a) read with the same selection: dtypes and column order of the result vs pf.dtypes"""
+    import shutil, tempfile
+    import numpy as np
+    import pandas as pd
+    import fastparquet
+    d = tempfile.mkdtemp(prefix="c17-")
+    try:
+        a = pd.array([None if j < k0 else j for j in range(5)], dtype="Int64")
+        df = pd.DataFrame({"f": np.arange(5, dtype="f8"), "a": a, "p": [1, 1, 2, 2, 2]})
+        fn = os.path.join(d, "ds")
+        if part:
+            fastparquet.write(fn, df, file_scheme="hive", partition_on=["p"], write_index=False)
+        else:
+            fastparquet.write(fn, df[["f", "a"]], write_index=False)
+        pf = fastparquet.ParquetFile(fn)
+        cols = [c for c, s in (("f", sel_f), ("a", sel_a)) if s]
+        if swap:
+            cols = cols[::-1]
+        index = [None, "f", "a"][idx]
+        want_cols = cols + (["p"] if part else [])
+        try:
+            out = pf.to_pandas(columns=want_cols, index=index if index else False)
+        except Exception as ex:
+            return True, "to_pandas(columns=%r, index=%r) fails: %s: %s" % (want_cols, index, type(ex).__name__,
+                                                                          str(ex)[:80])
+        data_cols = [c for c in want_cols if c != index]
+        if list(out.columns) != data_cols:
+            return True, "to_pandas(columns=%r, index=%r) returns columns %r" % (want_cols, index, list(out.columns))
+        for c in data_cols:
+            if str(out[c].dtype) != str(pf.dtypes[c]):
+                return True, "column %s: predicted %s, read %s" % (c, pf.dtypes[c], out[c].dtype)
+        return False, "prediction holds"
+    finally:
+        shutil.rmtree(d, ignore_errors=True)
